@@ -157,6 +157,9 @@ type LoopInfo struct {
 	ordinal  int
 	contract *LoopContract
 	parent   *LoopInfo
+	entryVals map[*ssa.Phi]Val // values of the loop-carried variables when the loop is entered (for entry(x))
+	hdrVals   map[*ssa.Phi]Val // values of the loop-carried variables at the header in the current iteration (for iter(x))
+	hdrSt     *State           // state at the header in the current iteration (for atiter(k, e))
 }
 
 type Node struct {
